@@ -40,12 +40,16 @@ def grid_variant(env, g0, kind):
     rng = env.rng
     w = env.world
     s0 = w["grids"][g0]
-    if kind in ("shift", "freq", "longer"):
+    if kind in ("shift", "freq", "freq_same", "longer"):
         T0 = specs.grid_info(w, g0).T
         if kind == "shift":
             return specs.gen_grid(env, freq=s0["freq"], T=(T0 if T0 in specs.FREQ_T[s0["freq"]] else None), mtu=s0["mtu"])
-        if kind == "freq":
+        if kind in ("freq", "freq_same"):
             f = rng.choice([f for f in ["15min", "h", "4h", "d"] if f != s0["freq"]])
+            same = [f_ for f_ in ["15min", "h", "4h", "d"] if f_ != s0["freq"] and T0 in specs.FREQ_T[f_]]
+            if same and (kind == "freq_same" or rng.random() < 0.3):
+                # the same number of steps with another step size (48 half hours yesterday, 48 hours today)
+                return specs.gen_grid(env, freq=rng.choice(same), T=T0, mtu=s0["mtu"])
             return specs.gen_grid(env, freq=f, mtu=s0["mtu"])
         bigger = [t for t in specs.FREQ_T[s0["freq"]] if t > T0 and t <= 96]
         return specs.gen_grid(env, freq=s0["freq"], T=(bigger[0] if bigger else None), mtu=s0["mtu"], start_shift=False)
@@ -88,14 +92,17 @@ def portfolio_is_mip(world, pid):
 def gen_world(rng, opts):
     env = specs.Env(rng, max_T=48)
     env.allow_date_only_zone = True
+    env.special_floats = rng.random() < 0.15
     env.coarse_p = max(getattr(env, "coarse_p", 0), 0.35)
     env.ramp_p = max(getattr(env, "ramp_p", 0), 0.3)
     w = env.world
     g0 = specs.gen_grid(env)
+    if rng.random() < 0.3:
+        env.arr_T = specs.grid_info(w, g0).T      # some worlds give parameters as arrays with one value per step
     n_g = rng.choice([2, 2, 3])
     grids = [g0]
     for _ in range(n_g - 1):
-        grids.append(grid_variant(env, g0, rng.choice(["shift", "shift", "freq", "tz", "tz", "mtu", "longer"])))
+        grids.append(grid_variant(env, g0, rng.choice(["shift", "shift", "freq", "freq_same", "tz", "tz", "mtu", "longer"])))
     f0 = w["grids"][g0]["freq"]
     T0 = specs.grid_info(w, g0).T
     P0 = specs.gen_portfolio(env, grid_freq=f0, mip_ok=True, n_assets=rng.randint(1, 4))
@@ -395,8 +402,34 @@ def gen_scripts(rng, world, ctx):
         sc = []
         for _ in range(rng.randint(1, 4)):
             sc.extend(rng.choice(kinds)())
-        scripts.append(_market_updates(rng, world, sc)[:16])
+        scripts.append(_param_updates(rng, world, _market_updates(rng, world, sc))[:16])
     return scripts
+
+
+SET_ATTRS = ["extra_costs", "fix_costs", "costs_const", "cost_in", "cost_out", "cost_store", "efficiency", "time_back", "time_forward",
+             "max_cap", "min_cap", "size", "cap_in", "cap_out", "start_level", "end_level", "price", "time_already_running"]
+
+
+def _param_updates(rng, world, sc):
+    """The user assigns a new value to a scalar parameter of an asset he already used and calls again: the
+    parameters an object holds at the time of a call are that call's input."""
+    out = []
+    for st in sc:
+        o = st.get("obj")
+        if st["op"] not in ("a.setup", "P.setup", "P.split", "P.samples", "io.optimize") or not isinstance(o, str):
+            out.append(st)
+            continue
+        r = rng.random()
+        cand = [o] if o[0] == "a" else subtree_assets(world, o)
+        if not cand or r >= 0.12:
+            out.append(st)
+            continue
+        upd = {"op": "a.set_attr", "obj": rng.choice(cand), "attr": rng.choice(SET_ATTRS), "alt": [rng.choice(SET_ATTRS) for _ in range(4)]}
+        if r < 0.06:
+            out += [upd, st]
+        else:
+            out += [st, upd, json.loads(json.dumps(st))]
+    return out
 
 
 def _market_updates(rng, world, sc):
@@ -586,6 +619,7 @@ class Exec:
         self.w = plan["world"]
         self.B = specs.Builder(self.w)
         self.price_updates = {}   # price table id -> updates the user wrote into the container so far
+        self.attr_updates = {}    # asset id -> (attribute, value) the user assigned to the live object so far
         self.M = Model(self.w)
         self.last = {}      # object id -> dict(op, res, grid, prices_obj)
         self.fixes = {}     # fix id -> dict(sys=<dict obj>, I=<tagged>, x=<array>)
@@ -755,6 +789,16 @@ class Exec:
             self.stats["twin_calls"] += 1
             tw = specs.Builder(self.w)
             tw.price_updates = self.price_updates    # the fresh twin's price containers hold what the user's hold now
+            if self.attr_updates:
+                # as in the history: every object (wrappers included) exists before the user assigns anything
+                for aid in sorted(self.w["assets"], key=lambda a_: int(a_[1:])):
+                    try:
+                        tw.asset(aid)
+                    except Exception:
+                        pass
+                for aid, ups in self.attr_updates.items():
+                    for attr, new in ups:
+                        setattr(tw.asset(aid), attr, new)
             t = _call(lambda: twin_fn(tw))
             v = None
             if s.exc is not None and t.exc is not None:
@@ -794,6 +838,18 @@ class Exec:
             self.stats["noop_steps"] += 1
             return
         if "obj" in st and st["obj"][0] == "P" and st["obj"] not in w["portfolios"]:
+            self.stats["noop_steps"] += 1
+            return
+        if op == "a.set_attr":
+            a = self.B.asset(st["obj"])
+            for attr in [st["attr"]] + list(st.get("alt", [])):     # the first listed attribute this asset has as a scalar
+                new = specs.bump_attr(a, attr)
+                if new is not None:
+                    setattr(a, attr, new)
+                    self.attr_updates.setdefault(st["obj"], []).append((attr, new))
+                    self.probe("parameter_assigned_between_calls")
+                    self.events.append({"step": i, "op": op, "out": "%s=%r" % (attr, new)})
+                    return
             self.stats["noop_steps"] += 1
             return
         if op == "p.update":
